@@ -27,16 +27,28 @@ package console
 //vc:spec func sendAllowed(cmp bool, pass string, c string) bool =
 //vc:   !cmp || readOnlyCmd(c) || c == pass || (exists re string :: c == grepIssue(re))
 
+// Configuration mode of a Cisco session as a state machine over the commands
+// sent: a compare run may send nothing but the terminal width setting (and the
+// "end" that leaves the mode) while it is on.
+//vc:ghost var confMode bool
+//vc:spec func confAfter(m bool, c string) bool = ite(c == "configure terminal", true, ite(c == "end", false, m))
+//vc:spec func confAllowed(cmp bool, m bool, c string) bool = !(cmp && m) || c == "terminal width 511" || c == "end"
+
 //vc:only[C11] (*github.com/tailscale/goexpect.GExpect).Send in (*Conn).Send, (*Conn).Close
 
 //vc:func (*Conn).Send
 //vc:  requires[C11] sendAllowed(isCompareRun, loginPass, cmd)
+//vc:  requires[C11] @compareInConfModeOnlyWidth confAllowed(isCompareRun, confMode, cmd)
+//vc:  set confMode = confAfter(confMode, cmd)
+//vc:  ensures[C11] confMode == confAfter(old(confMode), cmd)
 //vc:  requires[C09] @nothingSentAfterAbort !panicking() || cleanupCmd(cmd)
 //vc:  set pendingReplies = pendingReplies + ite(strings.Cut$1(cmd, "\n") != "", 2, 1)
 //vc:  ensures[C09] pendingReplies == old(pendingReplies) + ite(strings.Cut$1(cmd, "\n") != "", 2, 1)
 
 //vc:func (*Conn).IssueCmd
 //vc:  requires[C11] sendAllowed(isCompareRun, loginPass, cmd)
+//vc:  requires[C11] @compareInConfModeOnlyWidth confAllowed(isCompareRun, confMode, cmd)
+//vc:  ensures[C11] confMode == confAfter(old(confMode), cmd)
 //vc:  requires[C09] @nothingSentAfterAbort !panicking() || cleanupCmd(cmd)
 //vc:  set lastOutput = result
 //vc:  set lastCmd = cmd
@@ -45,10 +57,14 @@ package console
 
 //vc:func (*Conn).SendCmd
 //vc:  requires[C11] sendAllowed(isCompareRun, loginPass, cmd)
+//vc:  requires[C11] @compareInConfModeOnlyWidth confAllowed(isCompareRun, confMode, cmd)
+//vc:  ensures[C11] confMode == confAfter(old(confMode), cmd)
 //vc:  requires[C09] @nothingSentAfterAbort !panicking() || cleanupCmd(cmd)
 
 //vc:func (*Conn).GetCmdOutput
 //vc:  requires[C11] sendAllowed(isCompareRun, loginPass, cmd)
+//vc:  requires[C11] @compareInConfModeOnlyWidth confAllowed(isCompareRun, confMode, cmd)
+//vc:  ensures[C11] confMode == confAfter(old(confMode), cmd)
 //vc:  requires[C09] @nothingSentAfterAbort !panicking() || cleanupCmd(cmd)
 //vc:  set lastOutput = result
 //vc:  set lastCmd = cmd
